@@ -22,6 +22,10 @@
 (*     p_puttag_rq  ManifestPut(tag, index)                                *)
 (*     p_cman2   cacheMan.Set(index) inside that ManifestPut               *)
 (*     p_crl2    cacheRL.Set(subject, list); deferred Unlock; return       *)
+(*  scheme/reg/manifest.go:ManifestPut of a manifest WITHOUT a subject     *)
+(*     n_put_rq  PUT manifests/<digest>;  n_done  nothing about referrers  *)
+(*               (FeatFromPut: the feature cache is set from the missing   *)
+(*               acknowledgement - seed C10-8)                             *)
 (*  scheme/reg/manifest.go:ManifestDelete (WithManifestCheckReferrers)     *)
 (*     d_get / d_get_rq   ManifestGet(artifact): cacheMan hit or GET; not  *)
 (*               at all when the caller passes the manifest (WithManifest) *)
@@ -98,6 +102,11 @@ CONSTANTS ProcSeq,     \* updater goroutines, as a sequence (fixes the launch or
           CowIndex,    \* Add/Delete build a new object     (code: TRUE, as found: FALSE)
           InvAfterDel, \* ManifestDelete clears cacheRL again after its DELETE (code: TRUE, as found: FALSE)
           LockStyle,   \* "global" (the code: the one mutex muRefTag) | "persubj" | "dropfree" | "perart"
+          PlainIds,    \* manifests WITHOUT a subject that a history may also push ("n1" image, "n2" index)
+          FeatFromPut, \* ManifestPut records "referrers API yes/no" from the OCI-Subject acknowledgement of
+                       \* EVERY push, also of manifests without a subject (code: FALSE; seed C10-8)
+          TrustApplied,\* an artifactType query answered with OCI-Filters-Applied is returned without ANY client
+                       \* side filtering, so the other filters of the same call are lost (code: FALSE; seed C10-7)
           NormKey,     \* ReferrerList normalises the subject reference (SetDigest: tag dropped) before
                        \* it is used as the key of cacheRL, like every invalidation site (code: TRUE)
           ObsFilters,  \* the queries the lister may issue (a subset of Filters)
@@ -153,7 +162,7 @@ KeySubj(k) == IF k \in Subj THEN k ELSE CHOOSE s \in Subj : RawKey(s) = k
 ListKey(s) == IF NormKey \/ conf.spell # "both" THEN s ELSE RawKey(s)
 Reg == conf.mode # "oci"
 A(p) == op[p].a
-S(p) == conf.subj[op[p].a]
+S(p) == IF op[p].k = "plain" THEN "-" ELSE conf.subj[op[p].a]
 Idle(p) == pc[p] = "idle"
 AllIdle == \A p \in Procs : Idle(p)
 Running == {p \in Procs : ~Idle(p)}
@@ -217,10 +226,11 @@ Launch(p, k, a) ==
   /\ lconc' = (lconc \/ lpc # "idle")
   /\ Idle(p) /\ \A q \in Procs : Idle(q) => PIdx(p) <= PIdx(q)
   /\ Cardinality(Running) < MaxConc
-  /\ SameSubject => \A q \in Running : S(q) = conf.subj[a]
+  /\ (SameSubject /\ k # "plain") => \A q \in Running : op[q].k # "plain" => S(q) = conf.subj[a]
   /\ MixSameArt \/ \A q \in Running : A(q) = a => op[q].k = k
   /\ op' = [op EXCEPT ![p] = [k |-> k, a |-> a]]
-  /\ pc' = [pc EXCEPT ![p] = IF ~Reg THEN "o_run" ELSE IF k = "put" THEN "p_put_rq" ELSE "d_get"]
+  /\ pc' = [pc EXCEPT ![p] = IF ~Reg THEN "o_run" ELSE IF k = "put" THEN "p_put_rq"
+                              ELSE IF k = "plain" THEN "n_put_rq" ELSE "d_get"]
   /\ left' = left - 1 /\ phase' = "run"
   /\ out' = [ev |-> "call", id |-> p, k |-> k, a |-> a]
   /\ UNCHANGED <<conf, srvMan, srvTag, srvIdx, feat, cacheRL, cacheArt, cacheIdx, lkmap, lkheld, want, obj, lpc, lq, lacc, lcur>>
@@ -240,11 +250,12 @@ PCMan(p) ==
 
 PCRL(p) ==
   /\ pc[p] = "p_crl"
+  /\ feat' = IF FeatFromPut THEN (IF conf.mode = "api" THEN "yes" ELSE "no") ELSE feat
   /\ cacheRL' = [cacheRL EXCEPT ![S(p)] = NoList]
   /\ IF conf.mode = "api"
      THEN Finish(p, "ok", cacheIdx, <<>>)
      ELSE Goto(p, "p_lock") /\ Silent /\ UNCHANGED <<cacheIdx, obj>>
-  /\ UNCHANGED <<conf, srvMan, srvTag, srvIdx, feat, cacheArt, lkmap, lkheld, want, op, lpc, lq, lacc, lcur, lconc, phase, left>>
+  /\ UNCHANGED <<conf, srvMan, srvTag, srvIdx, cacheArt, lkmap, lkheld, want, op, lpc, lq, lacc, lcur, lconc, phase, left>>
 
 PLock(p) ==
   /\ pc[p] = "p_lock"
@@ -418,9 +429,22 @@ DCMan2(p) ==
   /\ Finish(p, "ok", cacheIdx, obj[p].v)
   /\ UNCHANGED <<conf, srvMan, srvTag, srvIdx, feat, lkmap, lkheld, want, op, lpc, lq, lacc, lcur, lconc, phase, left>>
 
+\* ------------------------------------ reg: ManifestPut of a manifest without a subject
+\* scheme/reg/manifest.go:ManifestPut: PUT, cacheMan.Set, no subject -> nothing about referrers
+NPutRq(p) ==
+  /\ pc[p] = "n_put_rq"
+  /\ Goto(p, "n_done") /\ Silent
+  /\ UNCHANGED <<conf, srvMan, srvTag, srvIdx, feat, cacheRL, cacheArt, cacheIdx, lkmap, lkheld, want, op, obj, lpc, lq, lacc, lcur, lconc, phase, left>>
+
+NDone(p) ==
+  /\ pc[p] = "n_done"
+  /\ feat' = IF FeatFromPut THEN "no" ELSE feat
+  /\ Finish(p, "ok", cacheIdx, <<>>)
+  /\ UNCHANGED <<conf, srvMan, srvTag, srvIdx, cacheRL, cacheArt, lkmap, lkheld, want, op, lpc, lq, lacc, lcur, lconc, phase, left>>
+
 \* --------------------------------------------- ocidir: the whole call under o.mu
 ORun(p) ==
-  /\ pc[p] = "o_run"
+  /\ pc[p] = "o_run" /\ op[p].k # "plain"
   /\ LET a == A(p)  s == S(p)  t == srvTag[s]  tv == IF t.k = "idx" THEN t.v ELSE <<>> IN
      IF op[p].k = "put"
      THEN /\ srvMan' = srvMan \cup {a}
@@ -437,6 +461,11 @@ ORun(p) ==
                /\ srvIdx' = IF a \in Range(tv) /\ Without(tv, a) # <<>> THEN srvIdx \cup {Without(tv, a)} ELSE srvIdx
                /\ Finish(p, "ok", cacheIdx, <<>>)
   /\ UNCHANGED <<conf, feat, cacheRL, cacheArt, lkmap, lkheld, want, op, lpc, lq, lacc, lcur, lconc, phase, left>>
+
+OPlain(p) ==
+  /\ pc[p] = "o_run" /\ op[p].k = "plain"
+  /\ Finish(p, "ok", cacheIdx, <<>>)
+  /\ UNCHANGED <<conf, srvMan, srvTag, srvIdx, feat, cacheRL, cacheArt, lkmap, lkheld, want, op, lpc, lq, lacc, lcur, lconc, phase, left>>
 
 \* ------------------------------------------------------ quiescent observation
 Quiesce ==
@@ -468,7 +497,7 @@ LCache ==
   /\ UNCHANGED <<conf, srvMan, srvTag, srvIdx, feat, cacheRL, cacheArt, cacheIdx, lkmap, lkheld, want, pc, op, obj, lq, lacc, lcur, lconc, phase, left>>
 
 \* one page of the referrers API: the matching manifests after the cursor, in key order
-ApiAll == LET m == {a \in srvMan : conf.subj[a] = lq.s /\ (IsTypeFilter(lq.f) => Match(a, lq.f)) /\ Ord[a] > lcur}
+ApiAll == LET m == {a \in srvMan : conf.subj[a] = lq.s /\ TypeMatch(a, lq.f) /\ Ord[a] > lcur}
           IN  SelectSeq(<<"a1", "a2", "a3">>, LAMBDA a : a \in m)
 LApiRq ==
   /\ lpc = "l_api_rq"
@@ -491,7 +520,9 @@ LApiDone ==
   /\ feat' = IF feat = "unknown" THEN "yes" ELSE feat
   /\ cacheRL' = IF Cache /\ ~IsTypeFilter(lq.f) THEN [cacheRL EXCEPT ![ListKey(lq.s)] = AList(lacc)] ELSE cacheRL
   /\ lpc' = "idle"
-  /\ Tell(ListEv(lq.s, lq.f, lacc, ""))
+  /\ Tell(IF TrustApplied /\ IsTypeFilter(lq.f)
+          THEN [ListEv(lq.s, "none", lacc, "") EXCEPT !.f = lq.f]   \* nothing filtered on the client
+          ELSE ListEv(lq.s, lq.f, lacc, ""))
   /\ UNCHANGED <<conf, srvMan, srvTag, srvIdx, cacheArt, cacheIdx, lkmap, lkheld, want, pc, op, obj, lq, lacc, lcur, lconc, phase, left>>
 
 LTagRq ==
@@ -530,16 +561,16 @@ Fetch(d) ==
   /\ UNCHANGED <<conf, srvMan, srvTag, srvIdx, feat, cacheRL, cacheArt, lkmap, lkheld, want, pc, op, obj, lpc, lq, lacc, lcur, lconc, phase, left>>
 
 \* ---------------------------------------------------------------- next-state
-ReqPcs == {"p_put_rq", "p_get_rq", "p_puttag_rq", "d_get_rq", "d_ping_rq", "d_gettag_rq", "d_tagdel_rq",
+ReqPcs == {"n_put_rq", "p_put_rq", "p_get_rq", "p_puttag_rq", "d_get_rq", "d_ping_rq", "d_gettag_rq", "d_tagdel_rq",
            "d_tdhead_rq", "d_tdput_rq", "d_tdrm_rq", "d_puttag_rq", "d_delete_rq"}
 LockPcs == {"p_lock", "d_lock"}
-ReqStep(p) == PPutRq(p) \/ PGetRq(p) \/ PPutTagRq(p) \/ DGetRq(p) \/ DPingRq(p) \/ DGetTagRq(p)
+ReqStep(p) == NPutRq(p) \/ PPutRq(p) \/ PGetRq(p) \/ PPutTagRq(p) \/ DGetRq(p) \/ DPingRq(p) \/ DGetTagRq(p)
               \/ DTagDelRq(p) \/ DTdHeadRq(p) \/ DTdPutRq(p) \/ DTdRmRq(p) \/ DPutTagRq(p) \/ DDeleteRq(p)
 LocalStep(p) == PCMan(p) \/ PCRL(p) \/ PLock(p) \/ PCMan2(p) \/ PCRL2(p) \/ DGet(p) \/ DCRL(p) \/ DPing(p)
-                \/ DLock(p) \/ DFail(p) \/ DUnl(p) \/ DCMan2(p) \/ ORun(p)
+                \/ DLock(p) \/ DFail(p) \/ DUnl(p) \/ DCMan2(p) \/ ORun(p) \/ OPlain(p) \/ NDone(p)
 Step(p) == ReqStep(p) \/ LocalStep(p)
 ListStep == LCache \/ LApiRq \/ LApiDone \/ LTagRq \/ LOci
-Ops == {"put", "del"} \X Arts
+Ops == ({"put", "del"} \X Arts) \cup ({"plain"} \X PlainIds)
 Next ==
   \/ \E p \in Procs : Step(p)
   \/ \E p \in Procs, o \in Ops : Launch(p, o[1], o[2])
@@ -552,6 +583,7 @@ Spec == Init /\ [][Next]_dvars
 
 \* the request the goroutine is about to send, as <<method, kind, target>>
 ReqOf(p) == CASE pc[p] = "p_put_rq"    -> <<"PUT", "man", A(p)>>
+              [] pc[p] = "n_put_rq"    -> <<"PUT", "man", A(p)>>
               [] pc[p] = "p_get_rq"    -> <<"GET", "tag", S(p)>>
               [] pc[p] = "p_puttag_rq" -> <<"PUT", "tag", S(p)>>
               [] pc[p] = "d_get_rq"    -> <<"GET", "man", A(p)>>
@@ -581,7 +613,7 @@ CacheCoherent == \A d \in DOMAIN cacheIdx : Deref(cacheIdx[d], obj) = d
 \* the lock is held only inside the locked regions, by a running call
 LockSane == \A o \in LockIds : lkheld[o] # "" =>
               /\ lkheld[o] \in Procs /\ want[lkheld[o]] = o
-              /\ pc[lkheld[o]] \notin {"idle", "p_put_rq", "p_cman", "p_crl", "p_lock", "d_get", "d_get_rq", "d_delete_rq", "d_cman2"}
+              /\ pc[lkheld[o]] \notin {"idle", "p_put_rq", "p_cman", "p_crl", "p_lock", "d_get", "d_get_rq", "d_delete_rq", "d_cman2", "n_put_rq", "n_done"}
 \* the read-modify-write of one fall-back tag is a critical section
 RMWPcs == {"p_get_rq", "p_puttag_rq", "p_cman2", "p_crl2", "d_gettag_rq", "d_tagdel_rq", "d_tdhead_rq", "d_tdput_rq",
            "d_tdrm_rq", "d_puttag_rq"}
